@@ -294,6 +294,37 @@ def run_queue_fifo(rec, F):
     rec.floor(R, "run-queue mutations", n, 5)
 
 
+def queue_once(rec, F):
+    """the run queue holds a fiber at most once; only parked fibers are woken"""
+    R = rec.rule("F4.queue-once", "channels hand back stale waiters (a waiter stays registered after its fiber was woken, and `runnable` only means 'not complete'), and complete() wakes a Pending parent that may already be queued: every push_back of an existing fiber onto the run queue is guarded by a run-queue membership test and by a parked-state test; other pushes queue a fiber created in the same function. A fiber queued twice is later activated while Blocked/Running, which panics the scheduler")
+    VM = "laythe_vm::vm::Vm"
+    n = 0
+    for fn, bi, kind, s in sem.field_access_sites(F, VM, "fiber_queue", write_only=True):
+        if kind != "refmut":
+            continue
+        for b2, t, i in sem.calls_using_local(fn, s["d"]["l"]):
+            if i != 0 or lastseg(t["f"]) != "push_back":
+                continue
+            n += 1
+            d = str(sem.desc_operand(fn, t["args"][1]))
+            fresh = "'create_fiber'" in d or "'split'" in d or ("'manage'" in d and "Fiber" in d)
+            if fresh:
+                rec.inst(R, "%s: queues a fiber it has just created" % fn.name, ok=True, loc=loc_of(t["sp"]))
+                continue
+            gs = sem.dominating_guards(F, fn, b2)
+            member = any(sem.desc_call_name(g[1]) == "contains" and "fiber_queue" in str(g[1]) and g[2] is False for g in gs)
+            parked = any(sem.desc_call_name(g[1]) in ("is_blocked", "is_pending", "is_parked") and g[2] is True for g in gs)
+            # `a || b` leaves no single dominating guard for either call: accept the pair when both tests feed the branch into this block
+            if not parked:
+                names = set(lastseg(u["f"]) for bj, u in fn.calls() if fn.dominates(bj, b2))
+                parked = bool(names & {"is_blocked", "is_parked"}) or ("is_pending" in names and "is_blocked" in names)
+            ok = member and parked
+            rec.inst(R, "%s: wakes an existing fiber only when parked and not queued" % fn.name, ok=ok, loc=loc_of(t["sp"]), note="membership test=%s parked test=%s" % (member, parked))
+            if not ok:
+                rec.finding(R, "F4.queue-once/%s" % fn.name, "%s pushes an existing fiber onto the run queue without %s: a fiber woken twice (two children completing while the parent is Pending, or a stale channel waiter naming the running fiber) is queued twice and the second activation hits a fiber that is Blocked or Running - the scheduler's state assertions panic the host" % (fn.name, " and ".join(x for x, y in (("checking that it is not queued already", member), ("checking that it is parked", parked)) if not y)), loc=loc_of(t["sp"]), fn=fn.path)
+    rec.floor(R, "run-queue pushes", n, 3)
+
+
 def closed_receivers_findable(rec, F):
     R = rec.rule("F4.closed-wake", "ChannelQueue::runnable_waiter never answers from send_waiters alone when the queue may be closed: receivers parked on a closed channel must stay findable (they are owed nil)")
     CQ = "laythe_core::object::channel::channel_queue::ChannelQueue"
@@ -355,6 +386,7 @@ def launch_transfers_callee_slot(rec, F):
 def run(rec, F):
     launch_transfers_callee_slot(rec, F)
     run_queue_fifo(rec, F)
+    queue_once(rec, F)
     closed_receivers_findable(rec, F)
     deadlock_site(rec, F)
     park_switch(rec, F)
